@@ -55,6 +55,12 @@ func buildRendition(rng *rand.Rand, site *origin.Site, plURL string, container s
 		if (nTotal+tagBase)%3 == 0 {
 			pl.CanSkipUntilNS = 6e9 // a server that offers delta updates (but no blocking reload)
 		}
+		if (nTotal+tagBase)%5 == 2 {
+			// blocking reload advertised without parts or hints (the two are independent): the
+			// playlist is played in regular mode, segment by segment
+			pl.CanBlockReload = true
+			pl.PartTargetNS = 20e6
+		}
 		pl.OmitRangeStart = r.rangeMode == "nostart"
 		if pl.OmitRangeStart && (nTotal+tagBase)%2 == 1 {
 			pl.RangeStartEvery = 2 + nTotal%3 // explicit offsets again in the middle of the run
